@@ -242,6 +242,63 @@ def job_confine(T, Fc, asc, smear, tier, geom):
     return recs
 
 
+# ---------------------------------------------------------------- noise estimates: twin frames
+def job_noise_estimates_twin(T, Fc, asc):
+    """two identical frames built from the same data (their noise estimates are measured from it): one receives an
+    injection before its estimates are looked at for the first time, the other none -- the estimates agree"""
+    recs = []
+    tag = f"C06:noise-estimates-twin:{(T, Fc, asc)}"
+    df, dt, fch1, pre = geom_syms()
+    D = sym_data(T, Fc)
+
+    def run():
+        a = F.Frame(data=D.copy(), df=df, dt=dt, fch1=fch1, ascending=asc, seed=1)
+        b = F.Frame(data=D.copy(), df=df, dt=dt, fch1=fch1, ascending=asc, seed=1)
+        a.add_signal(uf1('PATH'), uf1('TP'), uf2('FP'), uf1('BP'))
+        return (a.noise_mean, a.noise_std), (b.noise_mean, b.noise_std), a.get_noise_stats() if hasattr(a, 'get_noise_stats') else None
+    with frame_patches():
+        leaves = core.explore(run, pre, cap=20)
+    for li, leaf in enumerate(leaves):
+        name = f"{tag}:leaf{li}"
+        base = pre + leaf.pc + leaf.side
+        if leaf.kind == 'exc':
+            r, m = core.check(base, timeout_ms=30000)
+            recs.append(q(name + ':noexc', r, detail=repr(leaf.value)))
+            if r == 'sat':
+                recs.append(cex('C06:noise-twin:raise', f'frame from data / injection raised {leaf.value!r}', dict(fn='noise_twin', asc=asc), name=name + ':noexc'))
+            continue
+        (ma, sa), (mb, sb), _ = leaf.value
+        r, m = core.check(base + [z3.Or(lift(ma) != lift(mb), lift(sa) * lift(sa) != lift(sb) * lift(sb))], timeout_ms=60000)
+        recs.append(q(name, r))
+        if r == 'sat':
+            recs.append(cex('C06:noise-twin', "a frame's noise estimates differ from those of an identical frame that received no injection", dict(fn='noise_twin', asc=asc), name=name))
+        if li == 0:
+            recs.append(q(name + ':twin', core.check(base + [lift(mb) != 0], timeout_ms=30000)[0], expect='sat'))
+    return recs
+
+
+def replay_noise_twin(p):
+    import setigen as stg
+    rng = np.random.default_rng(4)
+    D = rng.normal(10, 2, (16, 32))
+    msgs = []
+    for route in ('data', 'from_data', 'second_noise'):
+        def mk():
+            if route == 'data':
+                return stg.Frame(data=D.copy(), df=2.0, dt=4.0, fch1=4096.0, ascending=p['asc'], seed=3)
+            if route == 'from_data':
+                return stg.Frame.from_data(2.0, 4.0, 4096.0, p['asc'], D.astype(np.float32), seed=3)
+            f_ = stg.Frame(fchans=32, tchans=16, df=2.0, dt=4.0, fch1=4096.0, ascending=p['asc'], seed=3)
+            f_.add_noise(5.0)
+            f_.add_noise(2.0)
+            return f_
+        a, b = mk(), mk()
+        a.add_signal(stg.constant_path(a.fs[10], 0.0), stg.constant_t_profile(500.0), stg.box_f_profile(6.0), stg.constant_bp_profile(1.0))
+        if not (np.isclose(a.noise_mean, b.noise_mean, rtol=1e-12) and np.isclose(a.noise_std, b.noise_std, rtol=1e-12)):
+            msgs.append(f"{route}: estimates after an injection ({a.noise_mean!r}, {a.noise_std!r}) differ from the un-injected twin's ({b.noise_mean!r}, {b.noise_std!r})")
+    return bool(msgs), '; '.join(msgs[:2]) or 'noise estimates are not touched by injections'
+
+
 # ---------------------------------------------------------------- unit-carrying bounding range
 def job_units_bounding(T, Fc, asc, smear):
     """a bounding range given as quantities (MHz, kHz) confines exactly like the same frequencies given in Hz"""
@@ -518,7 +575,7 @@ def job_superpose(T, Fc, asc, smear, bound, tier):
     return recs
 
 
-REPLAYS = {'add_signal': inject.replay_add_signal, 'superpose': replay_superpose, 'int_data': replay_int_data, 'failed': replay_failed, 'units_bounding': replay_units_bounding}
+REPLAYS = {'add_signal': inject.replay_add_signal, 'superpose': replay_superpose, 'int_data': replay_int_data, 'failed': replay_failed, 'units_bounding': replay_units_bounding, 'noise_twin': replay_noise_twin}
 
 
 def main():
@@ -544,6 +601,7 @@ def main():
                 jobs.append(('job_superpose', (2, 3, asc, smear, bound, ck.tier)))
                 jobs.append(('job_int_data', (2, 3, asc, bound, smear)))
     for asc in (False, True):
+        jobs.append(('job_noise_estimates_twin', (2, 3, asc)))
         for smear in (False, True):
             jobs.append(('job_units_bounding', (2, 3, asc, smear)))
     for smear in (False, True):
